@@ -92,6 +92,10 @@ def run(ctx):
                 # wires; the Hadamard-test tape builder wraps it in ControlledQubitUnitary
                 if "GlobalPhase" in expanded_names(qp.metric_tensor, spec, x)[0]:
                     return "metric-hadamard:trainable-globalphase-generator"
+            if exc is None and x is not None and "metric_tensor" in cfg and "adjoint" not in cfg and {"GlobalPhase", "Exp"} & set(expanded_names(qp.metric_tensor, spec, x)[0]):
+                # same cause without the exception (allow_nonunitary=True, aux wire given): the trainable GlobalPhase left by the expansion of
+                # FermionicSWAP / SingleExcitationPlus/Minus is differentiated with a wrong generator -> off-diagonal entries are wrong
+                return "metric-hadamard:trainable-globalphase-generator"
             if "quantum_fisher" in cfg and x is not None:
                 _, n0, n1 = expanded_names(qp.adjoint_metric_tensor, spec, x)
                 if n0 != n1:
